@@ -489,7 +489,14 @@ fn create_syntax_binding() -> Rc<LexicalScope<Transformer>> {
             parser.syntax_env
         };
     }
-    BINDINGS.with(|bindings| bindings.clone())
+    // a fresh scope on top of the bundled syntax: what one parser (or one interpreter)
+    // defines or redefines is not seen by any other
+    BINDINGS.with(|bindings| Rc::new(LexicalScope::new_child(bindings.clone())))
+}
+
+/// the bundled derived forms, in a scope of its own
+pub fn new_syntax_environment() -> Rc<LexicalScope<Transformer>> {
+    create_syntax_binding()
 }
 
 impl<TokenIter: Iterator<Item = Result<Token>>> Parser<TokenIter> {
@@ -503,10 +510,18 @@ impl<TokenIter: Iterator<Item = Result<Token>>> Parser<TokenIter> {
     }
 
     pub fn from_lexer(lexer: TokenIter) -> Parser<TokenIter> {
+        Self::from_lexer_with_syntax(lexer, create_syntax_binding())
+    }
+
+    /// a parser that reads and extends the given syntax environment
+    pub fn from_lexer_with_syntax(
+        lexer: TokenIter,
+        syntax_env: Rc<LexicalScope<Transformer>>,
+    ) -> Parser<TokenIter> {
         Self {
             current: None,
             lexer: lexer.peekable(),
-            syntax_env: create_syntax_binding(),
+            syntax_env,
             location: None,
         }
     }
